@@ -12,7 +12,6 @@ use crate::{
 use core::convert::TryInto;
 use std::{
   borrow::Cow,
-  convert::TryFrom,
   fmt::{self, Write},
 };
 
@@ -3811,58 +3810,23 @@ where
           Ok(())
         } else if ident_numeric_kind(self.state.cddl, ident).is_some_and(NumericKind::admits_int) {
           Ok(())
-        } else if is_ident_time_data_type(self.state.cddl, ident) {
-          if let chrono::LocalResult::None =
-            Utc.timestamp_millis_opt((i128::from(*i) * 1000) as i64)
-          {
-            let i = *i;
-            self.add_error(format!(
-              "expected time data type, invalid UNIX timestamp {:?}",
-              i,
-            ));
-          }
-
-          Ok(())
         } else {
           self.add_error(format!("expected type {}, got {:?}", ident, self.cbor));
           Ok(())
         }
       }
-      Value::Float(f) => {
+      Value::Float(_) => {
         if ident_numeric_kind(self.state.cddl, ident).is_some_and(NumericKind::admits_float) {
           Ok(())
-        } else if is_ident_time_data_type(self.state.cddl, ident) {
-          if let chrono::LocalResult::None = Utc.timestamp_millis_opt((*f * 1000f64) as i64) {
-            let f = *f;
-            self.add_error(format!(
-              "expected time data type, invalid UNIX timestamp {:?}",
-              f,
-            ));
-          }
-
-          Ok(())
         } else {
           self.add_error(format!("expected type {}, got {:?}", ident, self.cbor));
           Ok(())
         }
       }
-      Value::Text(s) => {
-        if is_ident_uri_data_type(self.state.cddl, ident) {
-          if let Err(e) = uriparse::URI::try_from(&**s) {
-            self.add_error(format!("expected URI data type, decoding error: {}", e));
-          }
-        } else if is_ident_b64url_data_type(self.state.cddl, ident) {
-          if let Err(e) = base64_url::decode(s) {
-            self.add_error(format!(
-              "expected base64 URL data type, decoding error: {}",
-              e
-            ));
-          }
-        } else if is_ident_tdate_data_type(self.state.cddl, ident) {
-          if let Err(e) = chrono::DateTime::parse_from_rfc3339(s) {
-            self.add_error(format!("expected tdate data type, decoding error: {}", e));
-          }
-        } else if is_ident_string_data_type(self.state.cddl, ident) {
+      Value::Text(_) => {
+        // The tagged text types of the prelude (tdate, uri, b64url, ...) do
+        // not match untagged text: they are handled by the `Value::Tag` arm
+        if is_ident_string_data_type(self.state.cddl, ident) {
           return Ok(());
         } else {
           self.add_error(format!("expected type {}, got {:?}", ident, self.cbor));
